@@ -15,7 +15,7 @@ if [ "$prop" = "C18" ]; then feat="--features ffi"; fi
 run_demo() {
   case "$demo" in
     *.py) cargo build --offline --features cli --bins >/dev/null 2>&1; python3 "$demo" target/debug >/dev/null 2>&1; echo $? ;;
-    *.rs) cp "$demo" tests/seeded_demo.rs; cargo test --offline $feat --test seeded_demo >/tmp/verify/$prop-$ab.demo.log 2>&1; rc=$?; rm -f tests/seeded_demo.rs; echo $rc ;;
+    *.rs) cp "$demo" tests/seeded_demo.rs; cargo test --offline $feat ${DEMO_PROFILE:+--release} --test seeded_demo >/tmp/verify/$prop-$ab.demo.log 2>&1; rc=$?; rm -f tests/seeded_demo.rs; echo $rc ;;
   esac
 }
 clean_rc=$(run_demo)
